@@ -1549,7 +1549,7 @@ def apply_method_contract(eng, fi, c, args, kwargs, node):
         ens = dict(c.ensures)
         ens.update(c.extra.get('assumed_ensures', {}))
         for name, e in ens.items():
-            if any(k_ in e for k_ in ('n_events(', 'event_arg(', 'event_ref(', 'n_calls(', 'n_added(', 'events(')):
+            if any(k_ in e for k_ in ('n_events(', 'event_arg(', 'event_ref(', 'n_calls(', 'n_added(', 'events(', 'added_index(')):
                 continue          # clauses about the callee's own activation trace say nothing in the caller's trace
             eng.assume(eng.pure_bool(e, fr_c))
     finally:
